@@ -5,8 +5,10 @@ From Coq Require Import List NArith ZArith Bool QArith Qcanon.
 From Okv Require Import Base.Maps Base.Dec Model.Amount Model.Book Run.LedgerCase.
 Import ListNotations.
 
-Record case := { c_entries : list entry; c_obs : lobs }.
-Definition C (es : list entry) (o : lobs) : case := {| c_entries := es; c_obs := o |}.
+Record case := { c_entries : list entry; c_obs : lobs; c_diag : gdiag }.
+Definition C (es : list entry) (o : lobs) : case := {| c_entries := es; c_obs := o; c_diag := GNone |}.
+(* with the rendered error read back (Run/LedgerCase.v gdiag) *)
+Definition CG (es : list entry) (o : lobs) (d : gdiag) : case := {| c_entries := es; c_obs := o; c_diag := d |}.
 
 Definition model_balance_error (e : bk_err) : bool :=
   match e with UnbalancedPostings _ | UndeduciblePostingAmount _ _ => true | _ => false end.
@@ -47,7 +49,13 @@ Definition spec_holds (es : list entry) (o : lobs) (m : outcome bstate * nat) : 
 
 Definition classify (c : case) : N :=
   let m := process (c_entries c) in
-  if obs_agrees (c_obs c) m then 0%N
+  if obs_agrees (c_obs c) m then
+    (* rejected as the model rejects it: the error the user sees must name that transaction *)
+    match m with
+    | (Err e, k) => if gdiag_names (c_diag c) k e then 0%N
+                    else if gdiag_unreadable (c_diag c) then 9%N else 2%N
+    | _ => 0%N
+    end
   else if spec_holds (c_entries c) (c_obs c) m then 1%N else 2%N.
 
 Definition verdicts (cs : list case) : list N := map classify cs.
